@@ -1,3 +1,84 @@
-(* C01 -- placeholder until the delivery theorem is in place *)
-From Coq Require Import List.
-Theorem C01_placeholder : True. Proof. exact I. Qed.
+(* C01 -- every message of a conforming server is delivered once, in order, byte-exact.  Statements only. *)
+From Coq.Strings Require Import Byte String.
+From Coq Require Import List NArith ZArith Bool.
+From Model Require Import Bytes Utf8 Frame Parser FrameParser Response Conn.
+From Proofs Require Import FrameParserFacts ConnFacts DeliveryFacts.
+Import ListNotations.
+Open Scope N_scope.
+
+(* One frame.  The frame parser (lomond/frame_parser.py over lomond/parser.py), between two frames, given the bytes of a
+   frame as a conforming server encodes it -- unmasked, reserved bits clear, the payload length in ANY of the three
+   length forms that can hold it (7-bit, 16-bit, 64-bit; minimal or not) -- followed by any further bytes: it yields
+   exactly that frame (same FIN, opcode and payload bytes), leaves exactly the further bytes, and is again between two
+   frames with its text bookkeeping advanced.  For every payload, of every size below 2^63. *)
+Theorem C01_one_frame_any_length_form : forall s t u f lf rest u',
+  at_boundary s t u -> plain f -> form_ok lf (blen (f_payload f)) = true ->
+  validate_err false (hdr_of f) (blen (f_payload f)) = false ->
+  (textual f t = true -> uvalidate u (f_payload f) = Some u') ->
+  exists s', fp_pull s (enc_frame f lf ++ rest) = Item (IFrame f) s' rest /\
+             at_boundary s' (is_text_after f t) (u_after f t u u').
+Proof. exact pull_one_frame. Qed.
+Print Assumptions C01_one_frame_any_length_form.
+
+(* The whole stream.  [ref_messages open fs] is the reference reading of RFC 6455 sections 5.4/5.5 (DeliveryFacts.v, 40
+   lines, independent of the implementation's structure): it walks the frame list, lets Ping/Pong through at once even
+   between the fragments of a data message, concatenates TEXT/BINARY + CONTINUATION* up to FIN, and answers with the
+   messages in the order in which they COMPLETE, or None if the list is not a conforming stream.
+   For EVERY frame list fs the reference accepts, each frame encoded in any legal length form (lfs), fed to the model of
+   WebSocket.feed / WebsocketStream.feed / FrameParser / Message.build / the session's per-event work from a connection
+   that is between two frames: the feed ends normally, the message events appended to the trace are exactly the
+   reference's messages -- one event per message, in completion order, with the reference's payload bytes (Text: the
+   UTF-8 bytes, validity established; Binary/Ping/Pong byte-exact) -- and the connection is again between two frames
+   with the reference's open fragments, so the statement composes over successive reads.
+   Hypotheses about the environment: the application is passive (sends nothing from its event handlers; the session's
+   own automatic Pong IS in the model) and no ping timeout is configured (otherwise Unresponsive may legally
+   intervene: C07).  Close frames are not in this theorem: see C08/C09 and the correspondence check. *)
+Theorem C01_delivery : forall cf app, passive app -> zpos (c_ping_timeout cf) = None ->
+  forall fs lfs c open ms open',
+  idle c open -> data_head open -> Forall plain fs -> forms_ok fs lfs ->
+  ref_messages open fs = Some (ms, open') ->
+  exists c', feedf cf app c (encode_all fs lfs) = (c', SOk) /\ idle c' open' /\ data_head open' /\
+             msg_events (k_tr c') = rev (map ev_of ms) ++ msg_events (k_tr c).
+Proof. exact deliver_frames. Qed.
+Print Assumptions C01_delivery.
+
+(* ... however the transport cuts the encoded stream into reads (with C02) *)
+Theorem C01_delivery_any_chunking : forall cf app, passive app -> zpos (c_ping_timeout cf) = None ->
+  forall fs lfs ds c open ms open',
+  idle c open -> data_head open -> Forall plain fs -> forms_ok fs lfs ->
+  ref_messages open fs = Some (ms, open') -> concat ds = encode_all fs lfs ->
+  exists c', feed_chunks cf app c ds = (c', SOk) /\ idle c' open' /\ data_head open' /\
+             msg_events (k_tr c') = rev (map ev_of ms) ++ msg_events (k_tr c).
+Proof. exact deliver_frames_chunked. Qed.
+Print Assumptions C01_delivery_any_chunking.
+
+(* ---------- the hypotheses are met: a connection right after an accepted handshake, and a stream with a fragmented
+   text message (one empty fragment), a Ping between its fragments, non-minimal length forms ---------- *)
+Definition cf0 : cfg :=
+  {| c_poll := 5%Z; c_ping_rate := 30%Z; c_ping_timeout := None; c_auto_pong := true; c_close_timeout := Some 30%Z;
+     c_accept := str "s3pPLMBiTxaQ9kYGzzhZRbK+xOo="%string |}.
+Definition app0 : strategy := fun _ => [].
+Definition reply0 : bytes :=
+  str "HTTP/1.1 101 Switching Protocols"%string ++ CRLF ++ str "Upgrade: websocket"%string ++ CRLF ++
+  str "Connection: Upgrade"%string ++ CRLF ++ str "Sec-WebSocket-Accept: s3pPLMBiTxaQ9kYGzzhZRbK+xOo="%string ++ CRLFCRLF.
+Definition c0 : conn := fst (feedf cf0 app0 (init [] [] [] []) reply0).
+Definition fr (fin : bool) (op : N) (p : bytes) : frame :=
+  {| f_fin := fin; f_rsv1 := false; f_rsv2 := false; f_rsv3 := false; f_op := op; f_key := None; f_payload := p |}.
+Definition fs0 : list frame :=
+  [ fr false OP_TEXT (str "He"%string); fr true OP_PING (str "p"%string); fr false OP_CONT []; fr true OP_CONT (str "llo"%string);
+    fr true OP_BINARY (repeat x00 200); fr true OP_PONG [] ].
+Definition lfs0 : list lenform := [L64; L16; L7; L16; L16; L64].
+
+Example C01_nonvacuous :
+  passive app0 /\ zpos (c_ping_timeout cf0) = None /\ idle c0 [] /\ data_head [] /\ Forall plain fs0 /\ forms_ok fs0 lfs0 /\
+  ref_messages [] fs0 = Some ([SPing (str "p"%string); SText (str "Hello"%string); SBinary (repeat x00 200); SPong []], []) /\
+  msg_events (k_tr (fst (feedf cf0 app0 c0 (encode_all fs0 lfs0)))) =
+    rev [EvPing (str "p"%string); EvText (str "Hello"%string); EvBinary (repeat x00 200); EvPong []] ++ msg_events (k_tr c0).
+Proof.
+  split; [intros tr; reflexivity|]. split; [reflexivity|].
+  split. { unfold idle. vm_compute. do 5 (split; [reflexivity|]). split; [constructor|]. exists UAcc. split; reflexivity. }
+  split; [exact I|].
+  split. { repeat constructor; vm_compute; reflexivity. }
+  split. { vm_compute. tauto. }
+  split; vm_compute; reflexivity.
+Qed.
